@@ -391,3 +391,62 @@ func CanonViaMarshal(x any) (string, bool) {
 	}
 	return v.Canon(), true
 }
+
+// FromPlain converts a canonical encoding/json decoding (float64, string, bool,
+// nil, []any, map[string]any, and pointers to them) into a Val.
+func FromPlain(x any) (*Val, error) {
+	switch x := x.(type) {
+	case nil:
+		return &Val{K: Null, canon: "null"}, nil
+	case bool:
+		v := &Val{K: Bool, B: x}
+		v.Canon()
+		return v, nil
+	case float64:
+		r := new(big.Rat)
+		if r.SetFloat64(x) == nil {
+			return nil, fmt.Errorf("not finite")
+		}
+		v := &Val{K: Num, N: r}
+		v.Canon()
+		return v, nil
+	case string:
+		v := &Val{K: Str, S: x}
+		v.Canon()
+		return v, nil
+	case *any:
+		return FromPlain(*x)
+	case *map[string]any:
+		return FromPlain(*x)
+	case []any:
+		v := &Val{K: Arr, A: make([]*Val, len(x))}
+		for i, e := range x {
+			c, err := FromPlain(e)
+			if err != nil {
+				return nil, err
+			}
+			v.A[i] = c
+		}
+		v.Canon()
+		return v, nil
+	case map[string]any:
+		v := &Val{K: Obj, O: make(map[string]*Val, len(x))}
+		for k, e := range x {
+			c, err := FromPlain(e)
+			if err != nil {
+				return nil, err
+			}
+			v.O[k] = c
+			v.Keys = append(v.Keys, k)
+		}
+		sort.Strings(v.Keys)
+		v.Canon()
+		return v, nil
+	}
+	// anything else (typed values inserted by the code under test): go through encoding/json
+	b, err := json.Marshal(x)
+	if err != nil {
+		return nil, err
+	}
+	return Parse(string(b))
+}
